@@ -413,6 +413,10 @@ def conn_types():
     t.append({"type": "run0", "beh": "after", "late": None})
     for beh in ("before", "mid", "after"):
         t.append({"type": "stream", "beh": beh, "late": None})
+    for beh in ("before", "mid", "never", "stubborn"):
+        # the client went away before the instant, the handler (handler_cancellation off) is still at work: it is a
+        # request being handled all the same - may finish within T, is cancelled by 2T
+        t.append({"type": "run", "beh": beh, "late": None, "gone": True})
     t.append({"type": "body", "late": None})  # handler waits for a body whose rest never arrives
     t.append({"type": "body", "late": "d"})  # ... whose rest arrives during the drain
     return t
@@ -593,7 +597,11 @@ def run_schedule(sched, rec, judge=True):
             r, b = new_req(c, "body", "pre", body=body, nf=math.inf)
             c.body_rest = b[-15:]
             c.client.send(b[:-15])
-    loop.advance(AGE)
+    loop.advance(AGE / 2)
+    for c in conns:
+        if c.spec.get("gone"):
+            c.client.transport.close()
+    loop.advance(AGE / 2)
     # requests whose processing the instant cuts at an iteration boundary: largest k first
     stepc = sorted([c for c in conns if c.spec["type"] in ("step", "run0")], key=lambda c: -_k(c.spec))
     for i, c in enumerate(stepc):
@@ -773,7 +781,14 @@ def judge_drain(sched, conns, obs, rec):
                 continue
             nf = r["nf"]
             if r["beh"] == "body" and r.get("rest") == "late" and not r.get("late_dropped_by_harness"):
-                rec.count("b:grey:request-body-bytes-arriving-during-drain-are-discarded" if rid not in ends else "b:recorded:body-completed-during-drain")
+                if rid in ends:
+                    rec.count("b:body-completed-during-drain")
+                else:
+                    # the handler was started before the instant and waits for the rest of its request body; the bytes
+                    # arrive well inside the shutdown timeout on a still open connection, yet the request cannot complete
+                    v.append(("drain:body-bytes-of-request-in-progress-discarded",
+                              f"connection {c.idx} ({ty}): the rest of request {rid}'s body arrived {r.get('late_at')}s after the instant (T={T}) on the open connection; "
+                              f"the handler never got it ({'cancelled at t0+%.2f' % (cancels[rid] - t0) if rid in cancels else 'still waiting'})"))
             if nf is None:
                 nf = st[0]  # fast handler
             if nf < t0 + T - 0.01:
@@ -784,6 +799,9 @@ def judge_drain(sched, conns, obs, rec):
                 elif rid not in ends:
                     v.append(("drain:handler-did-not-finish-within-timeout", f"connection {c.idx} ({ty}): handler {rid} due at t0+{nf - t0:.2f} never finished (T={T})"))
                     outcomes.append("A:unfinished")
+                elif c.spec.get("gone"):
+                    rec.count("b:orphaned-handler-within-timeout:finished")
+                    outcomes.append("A:orphan-finished")
                 elif rid not in complete:
                     v.append(("drain:response-incomplete-for-handler-within-timeout",
                               f"connection {c.idx} ({ty}): handler {rid} finished at t0+{ends[rid] - t0:.3f} (T={T}) but the client holds no complete response; got {len(out)} bytes, reader end={end[:3]}"))
@@ -803,7 +821,7 @@ def judge_drain(sched, conns, obs, rec):
                 else:
                     v.append(("drain:handler-not-cancelled-by-2x-timeout", f"connection {c.idx} ({ty}): handler {rid} neither finished nor was cancelled by t0+{bound - t0 + obs['osd'] + 3 * T + 5:.0f}"))
                     outcomes.append("B:alive")
-        sig.append((ty, c.spec.get("beh"), c.spec.get("late"), c.spec.get("k"), tuple(outcomes), bool(c.closing_after_settle)))
+        sig.append((ty, c.spec.get("beh"), c.spec.get("late"), c.spec.get("k"), bool(c.spec.get("gone")), tuple(outcomes), bool(c.closing_after_settle)))
     rec.sig("b-phase-outcome-vectors", (T, sched["osd"], sorted(map(repr, sig))))
     return v
 
